@@ -23,7 +23,7 @@ Prod == [
   f05   |-> Atom("Number", "0.5"),     f2   |-> Atom("Number", "2.0"),      f15  |-> Atom("Number", "1.5"),
   f0    |-> Atom("Number", "0.0"),     f1   |-> Atom("Number", "1.0"),      f5   |-> Atom("Number", "5.0"),
   unit  |-> Atom("Unit", "()"),        tru  |-> Atom("True", "$?"),         fls  |-> Atom("False", "$!"),
-  syma  |-> Atom("Symbol", ":a"),      symb |-> Atom("Symbol", ":b"),
+  syma  |-> Atom("Symbol", ":a"),      symb |-> Atom("Symbol", ":b"),      symc |-> Atom("Symbol", ":c"),
   strs  |-> Atom("CharList", "\"s\""), stre |-> Atom("CharList", "\"\""),   strab |-> Atom("CharList", "\"ab\""),
   val   |-> Atom("Value", "$"),        ida  |-> Atom("Identifier", "a"),    idb  |-> Atom("Identifier", "b"),  idc |-> Atom("Identifier", "c"),
   \* ---- binary operators (priority, parser definition, spelling)
